@@ -27,11 +27,14 @@ func c07CreditDay(c *vh.Ctx, run *nRun, i int, payload func() interface{}) {
 	tot := func(x nSnap) float64 { return sum(x.Naos[:]) + sum(x.Nfos[:]) + sum(x.Minaos[:]) + sum(x.Minfos[:]) }
 	dI := tot(e) - tot(s) // N handed to the organic pools (dead leaves: taken from PESUM; dead roots, manure: not)
 	tol := relTol(s.Pesum, e.Pesum, dU, dF, dI) + 1e-9*math.Abs(tot(s))
-	if d.CropDay && d.HarvestDay && len(d.Subs) > 0 && d.Subs[0].SumPE > 0 {
+	// with automatic harvest the harvest day is decided inside the first sub-step (crop.go:182-204), after the day-start
+	// probe: the day on which the crop index moves is the harvest day
+	harvestDay := d.HarvestDay || d.Start.AKF != d.End.AKF
+	if d.CropDay && harvestDay && len(d.Subs) > 0 && d.Subs[0].SumPE > 0 {
 		c.Count("run:harvest-day-with-uptake")
 	}
 	switch {
-	case d.CropDay && !d.SowDay && !d.HarvestDay:
+	case d.CropDay && !d.SowDay && !harvestDay:
 		// Excluded: the sowing day (PhytoOut sets PESUM from the seedling biomass, crop.go:119-123, before
 		// the day's uptake is credited) and the harvest day (the harvest block of Nitro subtracts the
 		// residues, hands PESUM to the crop record and resets it, nitro.go:317-319 / pinit / :550, before
@@ -48,7 +51,7 @@ func c07CreditDay(c *vh.Ctx, run *nRun, i int, payload func() interface{}) {
 			c.Violate("search", "run:cropN-credit:day:more-than-uptake+fixation", what+": the crop is credited with N it did not take up or fix on this day", payload())
 		case dP < dU+dF-math.Max(dI, 0)-tol:
 			c.Violate("search", "run:cropN-credit:day:less-than-uptake+fixation", what+": uptake or fixation of the day is not credited to the crop", payload())
-		case d.WumasEnd >= d.WumasStart && d.Start.NDG == d.End.NDG && math.Abs(dP-(dU+dF-dI)) > tol:
+		case d.WumasEnd >= d.WumasStart && d.Start.NDG == d.End.NDG && len(run.manureToday(d)) == 0 && math.Abs(dP-(dU+dF-dI)) > tol:
 			c.Violate("search", "run:cropN-credit:day:differs", what+": without dead roots and manure the three must balance", payload())
 		}
 	case !d.CropDay:
@@ -66,7 +69,13 @@ func c07CreditDay(c *vh.Ctx, run *nRun, i int, payload func() interface{}) {
 			}
 		}
 		if dP != 0 && d.Start.AKF == d.End.AKF {
-			c.Violate("search", "run:no-crop:cropN-changes", fmt.Sprintf("%s: no crop on the field and no harvest, yet PESUM changes by %.9g kg N/ha", d.Date, dP), payload())
+			sig, why := "run:no-crop:cropN-changes", ""
+			if a := nitroAutoOf[run.P]; a != nil && a.AutoMan && len(d.Subs) > 0 && d.Subs[0].Schnorr != 0 && math.Abs(dP-d.Subs[0].Schnorr) <= tol {
+				// input class of its own: automatic sowing, the next crop not sown yet (SAAT = 0), the harvested crop fixed N on its last day
+				sig += ":stale-fixation-before-automatic-sowing"
+				why = fmt.Sprintf(" (= the N fixation %.9g of the last day of the harvested legume, credited again on every day until the next crop is sown: nitro.go, `zeit >= SAAT` holds for SAAT = 0)", d.Subs[0].Schnorr)
+			}
+			c.Violate("search", sig, fmt.Sprintf("%s: no crop on the field and no harvest, yet PESUM changes by %.9g kg N/ha%s", d.Date, dP, why), payload())
 		}
 	}
 	// ---- between yesterday's day end and today's sub-step loop
